@@ -392,24 +392,26 @@ Section E2E.
     injection H as <-. reflexivity.
   Qed.
 
-  (* ---- the documented attribute names of a message, in declaration order ---- *)
+  (* ---- the documented attribute names of a message, in declaration order; "active" when no
+     field is left (no field declared, or every field excluded) ---- *)
   Fixpoint attr_names (fuel : nat) (d : mdesc) (path : string) {struct fuel} : list string :=
     match fuel with
     | O => []
     | S fuel' =>
-        match md_fields d with
+        match
+          flat_map (fun f =>
+            let tn := type_name d f in
+            let fp := field_path path f in
+            if o_excluded cfg tn fp then []
+            else if embedded_view cfg (view_of_field f) then
+              match fd_type f with
+              | PMsg mn => match find_msg table mn with Some d' => attr_names fuel' d' fp | None => [] end
+              | _ => []
+              end
+            else [attr_name cfg tn fp f]) (md_fields d)
+        with
         | [] => ["active"]
-        | fs =>
-            flat_map (fun f =>
-              let tn := type_name d f in
-              let fp := field_path path f in
-              if o_excluded cfg tn fp then []
-              else if embedded_view cfg (view_of_field f) then
-                match fd_type f with
-                | PMsg mn => match find_msg table mn with Some d' => attr_names fuel' d' fp | None => [] end
-                | _ => []
-                end
-              else [attr_name cfg tn fp f]) fs
+        | n :: r => n :: r
         end
     end.
 
@@ -426,8 +428,8 @@ Section E2E.
 
   Lemma attr_names_S fuel d path :
     attr_names (S fuel) d path =
-    match md_fields d with [] => ["active"] | _ :: _ => flat_map (one_names fuel d path) (md_fields d) end.
-  Proof. cbn [attr_names]. destruct (md_fields d); reflexivity. Qed.
+    match flat_map (one_names fuel d path) (md_fields d) with [] => ["active"] | n :: r => n :: r end.
+  Proof. reflexivity. Qed.
 
   (* all the names of the message: declared (+ promoted), then injected *)
   Definition all_names (fuel : nat) (d : mdesc) (path : string) : list string :=
@@ -438,6 +440,8 @@ Section E2E.
     Hypothesis R_refl : forall l, R l l.
     Hypothesis R_trans : forall a b c, R a b -> R b c -> R a c.
     Hypothesis R_app : forall a b c e, R a b -> R c e -> R (a ++ c)%list (b ++ e)%list.
+    Hypothesis R_nil_l : forall l, R [] l -> l = [].
+    Hypothesis R_nil_r : forall l, R l [] -> l = [].
     Hypothesis R_sort : o_sort cfg = true ->
       forall l : list field, R (map snake (sort_by (fun f => fi_name (f_info f)) l)) (map snake l).
 
@@ -468,11 +472,13 @@ Section E2E.
     Proof.
       induction fuel as [|fuel IH]; intros d path m H; [discriminate|].
       apply build_message_ok_inv in H. rewrite attr_names_S.
-      destruct H as [(E & Em)|(NE & l & Hl & Em)].
-      - rewrite E, Em. apply R_refl.
-      - destruct (md_fields d) as [|f0 fs0] eqn:Ed; [congruence|]. rewrite Em.
-        pose proof (names_step _ fuel d path (IH) _ _ Hl) as N.
-        destruct (o_sort cfg) eqn:Es; [|exact N].
+      destruct H as (l & Hl & Hc).
+      pose proof (names_step _ fuel d path (IH) _ _ Hl) as N.
+      destruct Hc as [(E & Em & _)|(NE & Em & _)].
+      - subst l. cbn [map] in N. apply R_nil_l in N. rewrite N, Em. apply R_refl.
+      - destruct (flat_map (one_names fuel d path) (md_fields d)) as [|n0 r0] eqn:Ed.
+        { apply R_nil_r in N. destruct l; [now contradiction NE|discriminate]. }
+        rewrite Em. destruct (o_sort cfg) eqn:Es; [|exact N].
         eapply R_trans; [apply (R_sort eq_refl)|exact N].
     Qed.
   End Rel.
@@ -484,6 +490,8 @@ Section E2E.
     - intros l. reflexivity.
     - intros a b c. apply Permutation_trans.
     - intros a b c e. apply Permutation_app.
+    - intros l. apply Permutation_nil.
+    - intros l P. symmetry in P. now apply Permutation_nil in P.
     - intros _ l. apply Permutation_map. apply sort_by_perm.
   Qed.
 
@@ -495,6 +503,8 @@ Section E2E.
     - reflexivity.
     - intros a b c. apply eq_trans.
     - intros a b c e -> ->. reflexivity.
+    - intros l E. now symmetry.
+    - intros l E. exact E.
     - congruence.
   Qed.
 
@@ -527,7 +537,9 @@ Section E2E.
   (* ---- where an entry comes from ---- *)
   Inductive origin : nat -> mdesc -> string -> sattr -> Prop :=
   | OPlaceholder fuel d path :
-      md_fields d = [] -> origin (S fuel) d path placeholder_attr
+      (* no field left: none declared, or every declared field excluded *)
+      (forall f, In f (md_fields d) -> o_excluded cfg (type_name d f) (field_path path f) = true) ->
+      origin (S fuel) d path placeholder_attr
   | ODeclared fuel d path f a :
       In f (md_fields d) ->
       o_excluded cfg (type_name d f) (field_path path f) = false ->
@@ -547,8 +559,9 @@ Section E2E.
     forall c, In c (m_fields m) -> origin fuel d path (schema_field hs c).
   Proof.
     induction fuel as [|fuel IH]; intros d path m H c Hc; [discriminate|].
-    apply build_message_ok_inv in H. destruct H as [(E & Em)|(NE & l & Hl & Em)].
-    - rewrite Em in Hc. destruct Hc as [<-|[]]. now apply OPlaceholder.
+    pose proof (build_message_empty_iff _ _ _ _ _ _ H) as (Hall & _).
+    apply build_message_ok_inv in H. destruct H as (l & Hl & [(E & Em & Ee)|(NE & Em & _)]).
+    - rewrite Em in Hc. destruct Hc as [<-|[]]. apply OPlaceholder. now apply Hall.
     - assert (Hcl : In c l).
       { rewrite Em in Hc. destruct (o_sort cfg); [now apply sort_by_perm_in in Hc|exact Hc]. }
       destruct (build_field_list_in _ _ _ _ _ _ Hl Hcl) as (f & x & Hf & Hv & Hx).
@@ -599,10 +612,11 @@ Section E2E.
     destruct (build_view_entry cfg table hs _ _ _ _ _ _ Hv Hx He) as (c & -> & Hn & Hspec).
     assert (Hc : In c (m_fields m)).
     { pose proof H as H'. apply build_message_ok_inv in H'.
-      destruct H' as [(E & _)|(_ & l & Hl & Em)]; [rewrite E in Hin; destruct Hin|].
+      destruct H' as (l & Hl & Hcase).
       pose proof (build_field_list_incl _ _ _ _ _ _ _ _ _ Hl Hin Hv) as I.
-      rewrite Em. assert (In c l) by (apply I; now left).
-      destruct (o_sort cfg); [now apply sort_by_perm_in|assumption]. }
+      assert (Hil : In c l) by (apply I; now left).
+      destruct Hcase as [(E & _)|(_ & Em & _)]; [subst l; destruct Hil|].
+      rewrite Em. destruct (o_sort cfg); [now apply sort_by_perm_in|assumption]. }
     set (a := schema_field hs c) in *.
     assert (Ha : s_name a = nm) by (unfold a; rewrite (schema_field_name _ Hk); exact Hn).
     assert (Hp : In a (puts_of m)) by (unfold puts_of; apply in_or_app; left; now apply in_map).
@@ -705,7 +719,7 @@ Section E2E.
     intros Hk H Hs ND. exists (m_fields m). split; [now apply (schema_attrs_flat _ _ _ _ Hk H ND)|].
     split; [now apply names_perm|].
     destruct fuel as [|fuel]; [discriminate|].
-    apply build_message_ok_inv in H. destruct H as [(E & Em)|(NE & l & Hl & Em)].
+    apply build_message_ok_inv in H. destruct H as (l & Hl & [(E & Em & _)|(NE & Em & _)]).
     - rewrite Em. repeat constructor.
     - rewrite Em, Hs. apply sort_by_sorted.
   Qed.
